@@ -129,6 +129,15 @@ def sink_bodies(an, rep):
                     ty = b.locals[st["place"]["local"]]["ty"]["s"]
                     if names == ["size"] and "SizeCalculator" in ty:
                         size_writers.add(b.key)
+    from .. import callgraph as _cg
+    from .n_totality import _owner_fn
+    _owner, _users = _owner_fn(core, _cg.CallGraph(core))
+    acct = set()
+    for k_ in size_writers:
+        b_ = core.find(k_)
+        us = _users(b_) if b_ is not None else set()
+        acct |= us if us else {k_}           # a private helper (`fn grow(&mut self, n)`) counts for the methods that use it
+    size_writers = acct
     R.check(size_writers == {"<SizeCalculator as BinaryOutput>::write_u8", "<SizeCalculator as BinaryOutput>::write_bytes"},
             "SizeCalculator.size", "writers", "size is written by %s" % sorted(size_writers))
     for key, inc in (("<SizeCalculator as BinaryOutput>::write_u8", "one"), ("<SizeCalculator as BinaryOutput>::write_bytes", "len")):
@@ -233,7 +242,8 @@ def input_methods(an, rep, extra_crates=()):
         if okk:
             ret = strip_refs(oks[0].outcome[1])
             v = strip_refs(ret[4][0]) if ret[0] == "agg" and ret[3] == "Ok" else ("unk",)
-            okk = v[0] == "cast" and v[1] == "IntToInt" and v[3] == "i8" and v[4][0] == "ok"
+            okk = v[0] == "cast" and v[1] == "IntToInt" and v[3] == "i8" and strip_refs(v[4])[0] in ("ok", "okval") and \
+                "read_u8" in show(v[4])
         R.check(okk, "BinaryInput::read_i8", "body", "body is not `self.read_u8()? as i8`", mir.loc(b, 0))
     crates = [core] + list(extra_crates)
     impls = _impl_items(crates, "BinaryInput")
